@@ -61,6 +61,12 @@ type LowerCfg struct {
 	CmdQ       int    `json:"cmd_q,omitempty"`
 	FreqHz     uint64 `json:"freq_hz"`
 	PortBuf    int    `json:"port_buf"`
+	// stub (adversarial lower memory) knobs
+	StubMinDelay int    `json:"stub_min_delay,omitempty"`
+	StubMaxDelay int    `json:"stub_max_delay,omitempty"`
+	StubReorder  bool   `json:"stub_reorder,omitempty"`
+	StubUnique   bool   `json:"stub_unique,omitempty"`
+	StubSeed     uint64 `json:"stub_seed,omitempty"`
 }
 
 // RobCfg configures an optional reorder buffer in front of the hierarchy.
@@ -76,6 +82,7 @@ type Op struct {
 	Addr  uint64 `json:"a"`
 	Size  int    `json:"n"`
 	Mask  int    `json:"m,omitempty"` // 0 none; k>0: bit pattern seed for a dirty mask
+	PID   uint32 `json:"pid,omitempty"`
 }
 
 // ReqCfg configures one requester.
@@ -125,6 +132,7 @@ type Asm struct {
 	Ideal  []*idealmemcontroller.Comp
 	Banked []*simplebankedmemory.Comp
 	Dram   []*dram.Comp
+	Stubs  []*StubMem
 	Conns  []*directconnection.Comp
 	Ports  map[string]messaging.Port
 	Ctrl   map[string]messaging.Port // component name -> Control port
@@ -200,6 +208,14 @@ func Build(cfg *Config, w *World) *Asm {
 		name := fmt.Sprintf("Mem%d", i)
 
 		var comp messaging.Component
+
+		if cfg.Lower.Kind == "stub" {
+			st := newStubMem(name, a, &cfg.Lower, i)
+			a.Stubs = append(a.Stubs, st)
+			lowerTops = append(lowerTops, st.port)
+
+			continue
+		}
 
 		switch cfg.Lower.Kind {
 		case "banked":
